@@ -370,11 +370,17 @@ def __e_dyad_form(a, b, backend):
     if backend.is_integer(a):
         if backend.is_float(b) or is_empty(b) or ('.' in b and str_is_float(b)):
             return KLONG_UNDEFINED
-        return int(b)
+        try:
+            return int(b)
+        except ValueError:
+            return KLONG_UNDEFINED  # "b" does not represent an integer
     if backend.is_float(a):
         if is_empty(b):
             return KLONG_UNDEFINED
-        return float(b)
+        try:
+            return float(b)
+        except ValueError:
+            return KLONG_UNDEFINED  # "b" does not represent a number
     if isinstance(a,KGChar):
         b = str(b)
         if len(b) != 1:
@@ -426,7 +432,7 @@ def __e_dyad_format2(a, b, backend):
     if hasattr(b, 'ndim') and b.ndim == 0:
         b = b.item()
     if safe_eq(int(a), 0):
-        return str(b)
+        return f":{b}" if isinstance(b, KGSym) else str(b)
     if (backend.is_float(b) and not isinstance(b,int)) and (backend.is_float(a) and not isinstance(a,int)):
         b = "{:Xf}".replace("X",str(a)).format(b)
         p = b.split('.')
